@@ -163,6 +163,9 @@ def _structured(tier):
   out.append(_pe_case(i, 'time', _gauss_cfg(13, 'odd'), 2, rng, tier, tref='constant', tag='-Tconst')); i += 1
   out.append(_pe_case(i, 'moist', _gauss_cfg(15, 'quad', 'fast'), 8, rng, tier, uneven=False,
                       tref='linear', tag='-equi-levels')); i += 1
+  # reference-profile classes on which sign / monotonicity / end-value shortcuts go wrong
+  out.append(_pe_case(i, 'dry', _gauss_cfg(13, 'quad'), 5, rng, tier, tref='bump', tag='-Tbump')); i += 1
+  out.append(_pe_case(i, 'time', _gauss_cfg(10, 'quad', 'fast'), 4, rng, tier, tref='cooling', tag='-Tcool')); i += 1
   c0 = _consts(); c0['omega'] = 0.0
   out.append(_pe_case(i, 'dry', _gauss_cfg(13, 'quad', 'fast'), 3, rng, tier, consts=c0, tag='-norot')); i += 1
   out.append(_pe_case(i, 'cloud', _gauss_cfg(15, 'over'), 4, rng, tier, consts=_consts(rng),
@@ -232,7 +235,7 @@ def cases(tier, seed):
                         consts=_consts(rng, vary=rng.random() < 0.8),
                         scale=_scale_desc(rng) if rng.random() < 0.2 else None,
                         tref=str(rng.choice(['random', 'random', 'constant', 'linear', 'tropopause', 'cooling',
-                                             'isothermal_top', 'plateau_cooling'])),
+                                             'isothermal_top', 'plateau_cooling', 'bump'])),
                         extra_tracer=rng.random() < 0.5))
   for i in range(n_sw):
     n = int(rng.choice(trunc_q if tier == 'quick' else trunc_t))
